@@ -29,3 +29,36 @@ pub fn bad_transform(value: &str) -> String {
         _ => value.to_string(),
     }
 }
+
+/// set-atomic: seeded positive / negatives
+pub trait Field {
+    fn set(&mut self, key: &str, value: &str) -> Result<(), String>;
+}
+impl Field for usize {
+    fn set(&mut self, _key: &str, value: &str) -> Result<(), String> {
+        *self = value.parse().map_err(|_| "bad".to_string())?;
+        Ok(())
+    }
+}
+pub struct Lazy<F>(pub Option<F>);
+pub struct Careful<F>(pub Option<F>);
+/// seeded: the slot is filled with the default before the inner set can fail
+impl<F: Field + Default> Field for Lazy<F> {
+    fn set(&mut self, key: &str, value: &str) -> Result<(), String> {
+        self.0.get_or_insert_with(Default::default).set(key, value)
+    }
+}
+/// correct: the new value is only stored once it has been accepted
+impl<F: Field + Default> Field for Careful<F> {
+    fn set(&mut self, key: &str, value: &str) -> Result<(), String> {
+        match &mut self.0 {
+            Some(inner) => inner.set(key, value),
+            None => {
+                let mut inner = F::default();
+                inner.set(key, value)?;
+                self.0 = Some(inner);
+                Ok(())
+            }
+        }
+    }
+}
